@@ -105,7 +105,7 @@ class C04(PropBase):
         if mut1 or mut2:
             violation = violation or "are_d_separated modified the caller's graph"
         if violation is None:       # the same query with the variables called otherwise (names with a leading digit, digits inside, underscores)
-            violation = GG.renamed_differs(case, o1, lambda: call(g, a, b, C)[0])
+            violation = GG.renamed_differs(case, o1, lambda: call(g, a, b, C)[0], cf_nodes=True)
         # skeleton-connected?
         adj = {}
         for u, v in g["dir"] + g["bid"]:
